@@ -18,7 +18,8 @@
 
   `copyFile` / `moveFile` are *interpreters* of event lists; the lists (`copyProg`, `moveProg`)
   are tied by `decide` to what the extractor reads from the source (Glb/Tie/Osutil.lean).
-  `copyFilePinned` interprets the list without the same-file guard (the pinned commit's order).
+  `copyFilePinned` / `moveFilePinned` interpret the lists without the same-file guards (the
+  orders before the repairs 270ff91 and cf1ff93).
 
   Not modelled (outside the property's quantifier): I/O errors in the middle of a copy, ENOSPC,
   permissions, concurrent modification, directory sources for rename (conservative errors).
@@ -186,6 +187,11 @@ def pinnedCopyProg : List FsEv :=
   [.openSrc, .retIfErr, .deferCloseSrc, .createDst, .retIfErr, .deferCloseDst, .copyDstSrc]
 
 def moveProg : List FsEv :=
+  [.statSrc, .statDst, .guardSameFile, .renameSrcDst, .retNilIfOk, .callCopyFile, .retIfErr,
+   .removeSrc]
+
+/-- before cf1ff93: no same-file guard in front of `os.Rename` -/
+def pinnedMoveProg : List FsEv :=
   [.renameSrcDst, .retNilIfOk, .callCopyFile, .retIfErr, .removeSrc]
 
 structure CSt where
@@ -249,6 +255,8 @@ def copyFilePinned (fs : FS) (src dst : Name) : FS × Except Err Nat :=
 
 structure MSt where
   fs : FS
+  srcId : Option Ident := none    -- srcInfo (only bound when os.Stat(src) succeeded)
+  dstId : Option Ident := none    -- destInfo
   err : Option Err := none
   ret : Option (Except Err Unit) := none
 
@@ -258,6 +266,18 @@ def moveStep (copy : FS → Name → Name → FS × Except Err Nat) (src dst : N
   | some _ => st
   | none =>
     match ev with
+    | .statSrc =>
+      match stat st.fs src with
+      | .ok id => { st with srcId := some id, err := none }
+      | .error e => { st with srcId := none, err := some e }
+    | .statDst =>                                         -- (inside `if err == nil` of statSrc)
+      match stat st.fs dst with
+      | .ok id => { st with dstId := some id, err := none }
+      | .error e => { st with dstId := none, err := some e }
+    | .guardSameFile =>                                   -- err == nil && os.SameFile(..) → error
+      match st.err, st.srcId, st.dstId with
+      | none, some a, some b => if a = b then { st with ret := some (.error .sameFile) } else st
+      | _, _, _ => st
     | .renameSrcDst =>
       match rename st.fs src dst with
       | .ok fs' => { st with fs := fs', err := none }
@@ -287,5 +307,9 @@ def runMove (prog : List FsEv) (copy : FS → Name → Name → FS × Except Err
 
 def moveFile (fs : FS) (src dst : Name) : FS × Except Err Unit :=
   runMove moveProg copyFile fs src dst
+
+/-- the order before cf1ff93 (kept to document the finding it repaired) -/
+def moveFilePinned (fs : FS) (src dst : Name) : FS × Except Err Unit :=
+  runMove pinnedMoveProg copyFile fs src dst
 
 end Glb.Files
